@@ -27,6 +27,21 @@ CHECKS = {
  "C12": ("exploration", "runtime monitor: online automaton over the ordered log of sink calls and API results, over generated call histories with injected failures",
          "Every generated history (write*; end with empty writes / empty documents, observers and mutating scripts incl. empty strings, failures by handler index or memory limit, graceful flags, meta charset) is run through the sink automaton; use-after-error is probed; without graceful flags the emitted bytes must be a prefix of the complete run's output.",
          "The automaton encodes the documented protocol only.", "§5 C12"),
+ "C03": ("exploration", "runtime monitor: differential oracle against html5ever 0.39 (tokenizer driven by its tree builder) on generated tag soup and a foreign-content grammar",
+         "Token streams of the strict run (capture set all and each single kind), the non-strict run and the public handlers are compared with html5ever's for adversarial HTML-namespace soup and for well-nested SVG/MathML documents under random write schedules; strict-mode refusals are checked against the necessary condition in the statement.",
+         "html5ever is the reference. One known finding (template insertion modes) is matched by an exact bug model; the EOF-inside-tag refusal artefact is recognised exactly (DESIGN.md §6).", "§5 C03"),
+ "C04": ("exploration", "runtime monitor: reference model (RefTree + RefSelector evaluated on generator ground truth) vs the set of element-handler invocations",
+         "Selector ASTs generated over the whole supported grammar are serialised to CSS for lol-html and evaluated by an independent matcher on the tree induced by explicit tags; the set of (selector, start tag) pairs must coincide, in-set and alone, under random write schedules.",
+         "Known finding (flattened :not) matched by an exact bug model (reference with flattened negation).", "§5 C04"),
+ "C05": ("exploration", "runtime monitor: reference scope model predicting the complete handler invocation log (sequence comparison)",
+         "The recorded invocation sequence (kind, handler, token) of every combination of element/text/comments/end-tag/document handlers is compared with the sequence predicted from ground truth, RefTree and RefSelector: scope, exactly-once, document order, registration order, end-tag handler timing, end handler.",
+         "Order among end-tag handlers of different elements closed by one end tag and among several end handlers is canonicalised (statement silent).", "§5 C05"),
+ "C14": ("exploration", "runtime monitor: ground-truth byte ranges of generated documents (any encoding) vs every reported source location; self-consistency automaton on soup",
+         "Every element / end tag / comment / doctype / attribute name and value location is compared with the generator's ground truth (RefAttr for attributes) under random schedules, 36 encodings and handler sets that rewrite earlier content; text chunk ranges must be contiguous and cover their node; locations never overlap or go backwards.",
+         "Ground truth validated against html5ever by `vcheck selftest` / C03 domain B.", "§5 C14"),
+ "C16": ("exploration", "runtime monitor: RefAttr (independent WHATWG tag tokenizer) + RefTree + namespace ground truth vs every Element getter; list model for reads after edits",
+         "All getters of all elements of generated documents (HTML/SVG/MathML context, any encoding, cuts at every byte of a tag) are compared with an independent attribute parser over the tag's bytes decoded by encoding_rs, with case-variant lookups and with a list model of set/remove/rename edits.",
+         "RefAttr validated against html5ever on UTF-8.", "§5 C16"),
 }
 
 NOT_YET = {
